@@ -6,6 +6,8 @@ import Liquid.ExprParse
 import Liquid.Std
 import Liquid.Call
 import Liquid.Filters.Num
+import Liquid.Filters.Str
+import Liquid.Compare
 /-!
 # Line-protocol driver (DESIGN §5.1): one case per line in, one canonical result line out.
 -/
@@ -27,7 +29,7 @@ def showStmt (kind : String) (r : Res ParseErr Stmt) : String :=
     match kind, st with
     | "e", .expr _ => "ok"
     | "assign", .assign x _ => "ok " ++ hexField x
-    | "cycle", .cycle g vs => "ok " ++ hexField g ++ " " ++ ",".intercalate (vs.map fun v => "s" ++ hexEncode v)
+    | "cycle", .cycle g v0 vs => "ok " ++ hexField g ++ " " ++ ",".intercalate ((v0 :: vs).map fun v => "s" ++ hexEncode v)
     | "loop", .loop x _ m => "ok " ++ hexField x ++ " " ++ flagS m.reversed "r" ++ flagS m.limit.isSome "l" ++
         flagS m.offset.isSome "o" ++ flagS m.cols.isSome "c"
     | "when", .when es => s!"ok {es.length}"
@@ -114,6 +116,29 @@ def runWritesCase (cfgF pathF lineF srcF envF : String) : String :=
            | (_, .unmodelled w) => "unmodelled " ++ w))
      | none => "unmodelled env")
   | _, _ => "unmodelled parse"
+/-- `numf <x> (<namehex> <arg|->)+`: the pipeline `x | f1: a1 | f2 …`, its value and its rendering -/
+def runPipeline (impls : Bytes → Option FilterImpl) : GoVal → List String → Res Cause GoVal
+  | v, name :: arg :: rest =>
+    let args : Option (List GoVal) := if arg == "-" then some [] else (GoVal.parse arg).map fun a => [a]
+    match args with
+    | none => .unmodelled "parse"
+    | some as => (evalFilter impls (hexDecode name) v as).bind fun r => runPipeline impls r rest
+  | v, _ => .ok v
+
+def runNumfCase (x : String) (steps : List String) : String :=
+  match GoVal.parse x with
+  | none => "unmodelled parse"
+  | some v =>
+    match runPipeline (lookupImpl allFilterImpls) (viaValue v) steps with
+    | .ok r =>
+      match writeObject r with
+      | .ok t => "ok " ++ r.enc ++ " " ++ hexField t
+      | .err c => "err " ++ c.kind
+      | .panic _ => "panic"
+      | .unmodelled w => "unmodelled " ++ w
+    | .err c => "err " ++ c.kind
+    | .panic _ => "panic"
+    | .unmodelled w => "unmodelled " ++ w
 
 def runCase (line : String) : String :=
   match line.splitOn " " with
@@ -131,6 +156,7 @@ def runCase (line : String) : String :=
     | some x => x.enc
     | none => "unmodelled parse"
   | "filter" :: name :: vals => runFilterCase name vals
+  | "numf" :: x :: steps => runNumfCase x steps
   | ["sprint", v] =>
     match GoVal.parse v with
     | some x => showBytesRes (sprint x)
@@ -143,4 +169,19 @@ def runCase (line : String) : String :=
     match parseParamTy t, GoVal.parse v with
     | some ty, some x => showValRes (convert x ty)
     | _, _ => "unmodelled parse"
+  | "strf" :: name :: recv :: args => StrF.runStrf name recv args
+  | "strfv" :: name :: recv :: args => StrF.runStrfv name recv args
+  | ["strfsj", recv, sep] => StrF.runStrfsj recv sep
+  | ["rel", forms, a, b] => Cmp.runPair Cmp.relOps forms a b
+  | ["con", forms, a, b] => Cmp.runPair [.contains] forms a b
+  | ["tru", form, a] => Cmp.runTruthy form a
+  | "expr" :: e :: vals => Cmp.runExpr e vals
+  -- whole-engine streams (harness/stream_robust.go, stream_determ.go, stream_immut.go); the render
+  -- model is not connected yet, so the comparison skips these lines (counted as unmodelled):
+  --   robust <cfg> <srchex> <envenc>                       (C01)
+  --   determ <cfg> <srchex> <envenc>                       (C02)
+  --   immut  <cfg> <nT> <srchex>.. <nE> <envenc>.. <op>..  (C03)
+  | "robust" :: _ => "unmodelled robust"
+  | "determ" :: _ => "unmodelled determ"
+  | "immut" :: _ => "unmodelled immut"
   | _ => "bad-op"
